@@ -83,6 +83,12 @@ func CheckConverged(f *Fleet, prop string) {
 			if f.ShadowTaint[dbi+"/"+key] {
 				continue // documented: change was uncaptured when the syncer stopped
 			}
+			if f.Tainted[dbi+"/"+key] {
+				// the application itself overwrote a newer version locally
+				// with an older timestamp; the newer one may never have
+				// been published: nothing Lightning Stream could preserve
+				continue
+			}
 			got, ok := refContent[dbi][key]
 			if !ok {
 				f.Violate(Violation{prop, "lww-winner", "key-lost",
